@@ -19,7 +19,7 @@ import grpc
 from hypothesis import strategies as st
 
 from vf import lab, oracle
-from vf.core import Prop, Outcome
+from vf.core import Prop, Outcome, fd
 
 import deep
 import deep.config
@@ -100,27 +100,27 @@ class C19(Prop):
                         yield {'mode': 'resolve', 'key': key, 'code': code, 'env': env, 'v': 1}
 
     def strategy(self, tier):
-        resolve = st.fixed_dictionaries({'mode': st.just('resolve'), 'key': st.sampled_from(DOC_KEYS + UNKNOWN_KEYS),
+        resolve = fd({'mode': st.just('resolve'), 'key': st.sampled_from(DOC_KEYS + UNKNOWN_KEYS),
                                          'code': st.sampled_from(['value', 'callable', 'none', 'absent']),
                                          'env': st.booleans(), 'v': st.integers(0, 5)})
         plist = st.lists(st.sampled_from(PREFIXES), max_size=3, unique=True)
         parity = st.one_of(
-            st.fixed_dictionaries({'mode': st.just('parity'), 'key': st.just('POLL_TIMER'),
+            fd({'mode': st.just('parity'), 'key': st.just('POLL_TIMER'),
                                    'value': st.sampled_from([5, 10, 1000, 2.5, 60])}),
-            st.fixed_dictionaries({'mode': st.just('parity'), 'key': st.just('SERVICE_SECURE'),
+            fd({'mode': st.just('parity'), 'key': st.just('SERVICE_SECURE'),
                                    'value': st.sampled_from(['True', 'False', 'false', 'true', 'no', '1'])}),
-            st.fixed_dictionaries({'mode': st.just('parity'), 'key': st.just('SERVICE_URL'),
+            fd({'mode': st.just('parity'), 'key': st.just('SERVICE_URL'),
                                    'value': st.sampled_from(['localhost:1234', 'deep.example:443', 'x:1'])}),
-            st.fixed_dictionaries({'mode': st.just('parity'), 'key': st.just('LOGGING_CONF'),
+            fd({'mode': st.just('parity'), 'key': st.just('LOGGING_CONF'),
                                    'value': st.sampled_from(['/etc/deep/logging.conf', '/tmp/l.conf'])}),
-            st.fixed_dictionaries({'mode': st.just('parity'), 'key': st.just('SERVICE_AUTH_PROVIDER'),
+            fd({'mode': st.just('parity'), 'key': st.just('SERVICE_AUTH_PROVIDER'),
                                    'value': st.just('deep.api.auth.BasicAuthProvider'),
                                    'user': st.sampled_from(['bob', 'ü', '']), 'password': st.sampled_from(['pw', 'p:w', ''])}),
-            st.fixed_dictionaries({'mode': st.just('parity'), 'key': st.sampled_from(['IN_APP_INCLUDE', 'IN_APP_EXCLUDE']),
+            fd({'mode': st.just('parity'), 'key': st.sampled_from(['IN_APP_INCLUDE', 'IN_APP_EXCLUDE']),
                                    'value': plist.filter(lambda l: len(l) >= 1).map(','.join)}),
-            st.fixed_dictionaries({'mode': st.just('parity'), 'key': st.just('APP_ROOT'),
+            fd({'mode': st.just('parity'), 'key': st.just('APP_ROOT'),
                                    'value': st.sampled_from(PREFIXES)}))
-        classify = st.fixed_dictionaries({'mode': st.just('classify'), 'include': plist, 'exclude': plist,
+        classify = fd({'mode': st.just('classify'), 'include': plist, 'exclude': plist,
                                           'root': st.sampled_from(PREFIXES + ['', '/nowhere']),
                                           'form': st.sampled_from(['list', 'string', 'env'])})
         return st.one_of(resolve, parity, parity, classify, classify)
